@@ -34,6 +34,13 @@ CHECKS = {
         note="Allocation-failure aborts with plausible sizes and watchdog kills are resource outcomes (inconclusive), a failed allocation of >= 1 TiB counts as memory corruption (violation).",
         design="DESIGN.md §4 C06, appendix C",
     ),
+    "C07": dict(
+        engine="front",
+        technique="runtime monitoring: span/render predicate and panic hook over an exhaustively enumerated token x neighbour adjacency matrix plus prefixes, deletions, token mutations and random text; AddressSanitizer build in the thorough tier",
+        text="Held on N inputs: lexing, parsing and (after a clean parse, as shipped) static checking return without panic, abort, signal or sanitizer report; every diagnostic and label span satisfies start <= end <= len on character boundaries; the whole set renders to valid UTF-8; no input stalls a worker. The adjacency matrix (token kind x multi-byte/blank/control neighbour x position x host) is enumerated completely, the rest is sampled.",
+        note="Inputs are <= ~1 KiB. The execution clause of the property (only texts without error diagnostics run) is checked through the CLI in C14.",
+        design="DESIGN.md §4 C07, appendix D",
+    ),
     "C04": dict(
         engine="sem",
         technique="runtime monitoring: generated scope-heavy programs with site-unique values against a reference interpreter with real lexical closures",
